@@ -334,3 +334,76 @@ class throttle_with_mapper:
         if s.has:
             out.on_next(s.val)
         out.on_completed()
+
+
+class timeout_with_mapper:
+    """source 0 is mirrored; it is watched by one timeout observable at a time: first_timeout (source 2) until the first element,
+    then the observable mapper(x) returned for the newest element x (an element releases the previous timeout).  When the timeout
+    that is being watched first emits or completes - before the next notification of the source - the subscriber is handed to the
+    fallback (source 1) and the source is released: ONCE.  An error of that timeout, of the mapper or of the source ends the
+    sequence.  Timeouts of older generations are stale: nothing happens."""
+
+    def init(s):
+        s.gen = 0
+        s.switched = False
+        s.term = False
+
+    def done(s):
+        return s.term or s.switched
+
+    def on_subscribe(s, out):
+        # the first timeout is watched before the source is subscribed
+        out.subscribe_source(2)
+        out.subscribe_source(0)
+
+    def switch(s, out):
+        s.switched = True
+        out.subscribe_source(1)  # the subscriber is handed to the fallback ...
+        out.dispose_source(0)    # ... and the source's subscription is released
+
+    def on_next(s, out, i, x):
+        if i == 0:
+            s.gen += 1
+            out.on_next(x)
+            try:
+                d = s.mapper(x)
+            except Exception as e:
+                s.term = True
+                out.on_error(e)
+                return
+            out.dispose_previous()
+            out.subscribe(d)
+        elif i == 2:
+            if s.gen == 0:
+                s.switch(out)
+            out.dispose_source(2)
+
+    def on_error(s, out, i, e):
+        if i == 0:
+            s.gen += 1
+            s.term = True
+            out.on_error(e)
+        elif i == 2 and s.gen == 0:
+            s.term = True
+            out.on_error(e)
+
+    def on_completed(s, out, i):
+        if i == 0:
+            s.gen += 1
+            s.term = True
+            out.on_completed()
+        elif i == 2 and s.gen == 0:
+            s.switch(out)
+
+    def timeout_next(s, out, k, _):
+        if k == s.gen:
+            s.switch(out)
+
+    def timeout_completed(s, out, k):
+        if k == s.gen:
+            s.switch(out)
+
+    def timeout_error(s, out, k, e):
+        if k == s.gen:
+            s.term = True
+            out.on_error(e)
